@@ -91,3 +91,28 @@ package dns
 //@   ensures nonneg: ret0 >= 0
 //@ func (*SVCBAlpn).len [C08 C16]
 //@   loop 1 invariant l >= 0
+
+// hand-written len methods: what they count is at least what the generated pack writes - the header, the fixed
+// fields, NextDomain uncompressed (RFC 3845/4034: never compressed), the salt and hash octets, the type bit map
+//@ func (*NSEC).len [C08]
+//@   callsite "domainNameLen" plain: arg0 == rr.NextDomain && arg1 == off + callres("(*RR_Header).len") && !arg3
+//@   exit sum: ret0 == callres("(*RR_Header).len") + callres("domainNameLen") + callres("typeBitMapLen")
+//@   callsite "typeBitMapLen" map: same(arg0, rr.TypeBitMap)
+//@ func (*NSEC3).len [C08]
+//@   exit enough: ret0 >= callres("(*RR_Header).len") + 5 + len(rr.Salt) / 2 + 1 + (len(rr.NextDomain) * 5) / 8 + callres("typeBitMapLen")
+//@   callsite "typeBitMapLen" map: same(arg0, rr.TypeBitMap)
+//@ func (*CSYNC).len [C08]
+//@   exit exact: ret0 == callres("(*RR_Header).len") + 6 + callres("typeBitMapLen")
+//@   callsite "typeBitMapLen" map: same(arg0, rr.TypeBitMap)
+
+// Msg.Len: the compressed length is computed (with a fresh map) exactly when Compress is set and there is something
+// to compress; otherwise the uncompressed one
+//@ func (*Msg).isCompressible [C08]
+//@   requires dns != nil
+//@   ensures ret0 == (len(dns.Question) > 1 || len(dns.Answer) > 0 || len(dns.Ns) > 0 || len(dns.Extra) > 0)
+//@   pure
+//@ func (*Msg).Len [C08]
+//@   opt no-safety
+//@   requires dns != nil
+//@   callsite "msgLenWithCompressionMap" which: arg0 == dns && ((dns.Compress && callres("isCompressible")) ? (arg1 != nil && fresh(arg1)) : arg1 == nil)
+//@   exit res: ret0 == callres("msgLenWithCompressionMap")
